@@ -56,7 +56,7 @@ func (g *c10Gen) shadowName(vars []c10Var) string {
 // Every purity-sensitive operator gets a template in which one let-bound collection is
 // used by several later operators whose results all stay observable.
 var c10Templates = []string{"list-concat", "cat-call", "list-set-concat", "set-union", "where-reuse", "flatten-reuse",
-	"loop-concat", "tform-shadow", "tform-shadow-nested", "tform-dedup", "rec-reuse", "rec-map", "opt-attr"}
+	"loop-concat", "tform-shadow", "tform-shadow-nested", "tform-dedup", "rec-reuse", "rec-map", "opt-attr", "union-empty-dup"}
 
 func (b *c10Body) template(name string) {
 	g := b.g
@@ -234,6 +234,27 @@ func (b *c10Body) template(name string) {
 		b.addExpr(&c10Ex{Op: "bin", T: c10TBool, Sym: []string{"in", "!in"}[g.intn(2, "trin")], A: key, B: c10VarEx(rv)}, false)
 		b.addExpr(&c10Ex{Op: "bin", T: c10TBool, Sym: []string{"in", "!in"}[g.intn(2, "trin2")], A: g.expr(c10TStr, 1, b.vars), B: c10VarEx(rv)}, false)
 		b.addExpr(&c10Ex{Op: "bin", T: c10TInt, Sym: "+", A: &c10Ex{Op: "attr", T: c10TInt, A: c10VarEx(rv), Name: rec.F[0].Name}, B: &c10Ex{Op: "attr", T: c10TInt, A: c10VarEx(rv), Name: rec.F[1].Name}}, false)
+	case "union-empty-dup":
+		// "set union without duplicates" at its edges: an operand that is empty at run time (a where that
+		// keeps nothing) and an operand whose literal repeats items, on either side
+		ty := []*c10Ty{c10TSInt, c10TSStr}[g.intn(2, "tudty")]
+		items := g.distinctLits(ty.El, 2+g.intn(2, "tudn"))
+		dup := &c10Ex{Op: "setof", T: ty, Name: "dup", Args: append(append([]*c10Ex{}, items...), c10CloneEx(items[g.intn(len(items), "tuddup")]))}
+		var never *c10Ex
+		if ty.El.K == "i" {
+			never = &c10Ex{Op: "bin", T: c10TBool, Sym: ">", A: c10Dot(c10TInt), B: c10Lit(c10Int(1000))}
+		} else {
+			never = &c10Ex{Op: "bin", T: c10TBool, Sym: "==", A: c10Dot(c10TStr), B: c10Lit(c10Str("zz"))}
+		}
+		empty := b.addExpr(&c10Ex{Op: "where", T: ty, A: g.collLit(ty), B: never}, true)
+		b.addExpr(&c10Ex{Op: "count", T: c10TInt, A: c10VarEx(empty)}, false)
+		u1 := b.addExpr(&c10Ex{Op: "bin", T: ty, Sym: "|", A: c10VarEx(empty), B: dup}, true)
+		u2 := b.addExpr(&c10Ex{Op: "bin", T: ty, Sym: "|", A: c10CloneEx(dup), B: c10VarEx(empty)}, true)
+		b.addExpr(&c10Ex{Op: "count", T: c10TInt, A: c10VarEx(u1)}, false)
+		b.addExpr(&c10Ex{Op: "count", T: c10TInt, A: c10VarEx(u2)}, false)
+		b.addExpr(&c10Ex{Op: "bin", T: ty, Sym: "|", A: c10VarEx(empty), B: c10VarEx(empty)}, false)
+		b.addExpr(&c10Ex{Op: "bin", T: ty, Sym: "|", A: c10VarEx(empty), B: g.expr(ty, 2, b.vars)}, g.coin("tlet"))
+		b.addExpr(&c10Ex{Op: "bin", T: ty, Sym: "|", A: c10CloneEx(dup), B: g.expr(ty, 2, b.vars)}, g.coin("tlet"))
 	case "opt-attr":
 		// records whose attribute is null for some elements and a value for the others, consumed element by
 		// element: the same comparison sees a null and a non-null operand in one evaluation
